@@ -761,6 +761,7 @@ class TermEval:
         self.loop_env = {}               # (name, lid) -> Iv during fixpoint
         self.lv_env = {}                 # (loop var, lid) -> Iv during a case split
         self.split_env = {}              # ('f', field) -> Iv during a case split
+        self.joint = None                # callable {field: value} -> bool (joint feasibility from the decode model)
         self.method_ranges = None        # callable (cls, method) -> abstract return value
         self.sys_width = None            # callable (path) -> bits
         self.loops = {}                  # lid -> {name: (init term, update term)} from LoopExit events
@@ -812,6 +813,17 @@ class TermEval:
             if b[0] == 'global' and b[2] == 'configurations':
                 # configuration constants: vector addresses are 32-bit values (documented assumption)
                 return U32 if t[2].startswith('impdef_') else u(32)
+            bv = self.ev(b)
+            if isinstance(bv, Enumv) and t[2] == 'value':
+                ci = self.repo.classes.get(bv.cls)
+                vals = []
+                if ci:
+                    for mname in bv.members:
+                        vn = ci[0].class_assigns.get(mname)
+                        if isinstance(vn, ast.Constant) and isinstance(vn.value, int):
+                            vals.append(vn.value)
+                if vals and len(vals) == len(bv.members):
+                    return Iv(min(vals), max(vals))
             return Topv('attribute %s' % t[2])
         if k == 'mem':
             s = self.ev(t[3])
@@ -934,13 +946,14 @@ class TermEval:
         that occur in it (keeps `substring(v, 8*i+7, 8*i)` at width 8 and relates `msbit` to
         `lsbit`); combinations contradicting a dominating guard of the event are skipped."""
         keys = {}
-        terms = [t] + [g[0] for g in guards]
-        for s in _subterms(t):
-            if isinstance(s, tuple) and s:
-                if s[0] == 'loopvar' and (s[1], s[2]) not in self.lv_env:
-                    keys[('lv', s[1], s[2])] = s
-                elif s[0] == 'field' and ('f', s[1]) not in self.split_env:
-                    keys[('f', s[1])] = s
+        for tt in [t] + [g[0] for g in guards]:
+            for s in _subterms(tt):
+                if isinstance(s, tuple) and s:
+                    if s[0] == 'loopvar' and (s[1], s[2]) not in self.lv_env:
+                        if tt is t:
+                            keys[('lv', s[1], s[2])] = s
+                    elif s[0] == 'field' and ('f', s[1]) not in self.split_env:
+                        keys[('f', s[1])] = s
         if not keys:
             return self.ev(t)
         combos = [{}]
@@ -966,6 +979,10 @@ class TermEval:
             try:
                 if not self.guards_feasible(guards):
                     continue
+                if self.joint is not None:
+                    fa_ = {k[1]: int(v.lo) for k, v in self.split_env.items() if k[0] == 'f'}
+                    if fa_ and not self.joint(fa_):
+                        continue        # the decode layer never produces this combination of field values
                 res = join(res, self.ev(t))
             finally:
                 self.lv_env, self.split_env = saved_lv, saved_f
